@@ -96,6 +96,10 @@ func (s *Service) scheduleSyncCommitteeMessages(ctx context.Context,
 		Uint64("last_slot", uint64(lastSlot)).
 		Msg("Setting sync committee duties for period")
 
+	// Fetching the duties may have taken us in to a later slot; do not schedule for slots that have passed.
+	if firstSlot < s.chainTimeService.CurrentSlot() {
+		firstSlot = s.chainTimeService.CurrentSlot()
+	}
 	for slot := firstSlot; slot <= lastSlot; slot++ {
 		if slot == s.chainTimeService.CurrentSlot() && notCurrentSlot {
 			continue
